@@ -10,12 +10,44 @@ association list; oset = traversal order of its linked list).
                    (pickle / copy through the real modules) and on the Coq model; result,
                    exception class, _keys and items are compared after every step.
 """
+import contextlib
 import copy
 import itertools
 import operator
 import pickle
+import signal
 
 LEVEL = "proof"
+
+
+# --------------------------------------------------------------------------- hang guard
+class Hang(BaseException):
+    """raised by the timers below inside a call into the implementation that does not return
+    (BaseException: the `except Exception` clauses that classify implementation errors let it through)"""
+
+
+HANG = [9, 77]          # result class "Hang" of a step; the model never produces it
+HANG_CPU_S = 1.0        # CPU seconds for ONE whole history (a normal history takes milliseconds);
+HANG_WALL_S = 30.0      # CPU time, not wall time, decides first so that a loaded machine cannot fake a hang
+
+
+@contextlib.contextmanager
+def hang_guard(cpu=HANG_CPU_S, wall=HANG_WALL_S):
+    """every call into the real classes (constructor, each op, iteration / list() / reversed() / pickle /
+    copy, and the state observation) runs inside this guard"""
+    def _alarm(sig, frm):
+        raise Hang()
+    o1 = signal.signal(signal.SIGVTALRM, _alarm)
+    o2 = signal.signal(signal.SIGALRM, _alarm)
+    signal.setitimer(signal.ITIMER_VIRTUAL, cpu)
+    signal.setitimer(signal.ITIMER_REAL, wall)
+    try:
+        yield
+    finally:
+        signal.setitimer(signal.ITIMER_VIRTUAL, 0)
+        signal.setitimer(signal.ITIMER_REAL, 0)
+        signal.signal(signal.SIGVTALRM, o1)
+        signal.signal(signal.SIGALRM, o2)
 
 KEYS = "aAbBcCdDeE"          # code 2i = lower-case spelling, 2i+1 = upper-case spelling
 
@@ -207,11 +239,15 @@ def apply_od(o, op, i, odict):
 
 
 def run_od(cls, odict, ps0, ops):
-    o = cls(dec_ps(ps0))
     out = []
-    for i, op in enumerate(ops):
-        out += apply_od(o, op, i, odict)
-        out += obs_od(o)
+    try:
+        with hang_guard():
+            o = cls(dec_ps(ps0))
+            for i, op in enumerate(ops):
+                r = apply_od(o, op, i, odict)
+                out += r + obs_od(o)
+    except Hang:
+        out += HANG          # the step in progress did not terminate; the history stops here
     return out
 
 
@@ -372,16 +408,20 @@ def dec_od(flat):
 
 def impl_steps_od(cls, odict, ps0, ops):
     """(result-encoding, items) per step from the implementation, for the search"""
-    o = cls(dec_ps(ps0))
     out = []
-    for i, op in enumerate(ops):
-        r = apply_od(o, op, i, odict)
-        try:
-            its = [(code(k), v) for k, v in o.items()]
-            ok = set(dict.keys(o)) == set(o._keys) and len(o) == len(o._keys)
-        except Exception as ex:
-            its, ok = repr(ex), False
-        out.append((r, its, ok))
+    try:
+        with hang_guard():
+            o = cls(dec_ps(ps0))
+            for i, op in enumerate(ops):
+                r = apply_od(o, op, i, odict)
+                try:
+                    its = [(code(k), v) for k, v in o.items()]
+                    ok = set(dict.keys(o)) == set(o._keys) and len(o) == len(o._keys)
+                except Exception as ex:
+                    its, ok = repr(ex), False
+                out.append((r, its, ok))
+    except Hang:
+        out.append((list(HANG), "hang", False))
     return out
 
 
@@ -404,7 +444,9 @@ def od_violation(cls, odict, ps0, ops, low):
     for j, ((rr, rits), (ir, iits, ok)) in enumerate(zip(ref, imp)):
         want = enc_ref(rr)
         bad = None
-        if not ok:
+        if ir == HANG:
+            bad = "the implementation did not terminate (Hang)"
+        elif not ok:
             bad = "_keys and underlying dict disagree"
         elif iits != rits:
             bad = "contents/order differ"
@@ -524,11 +566,15 @@ def apply_mo(m, op, i, modict, odict):
 
 
 def run_mo(modict, odict, ps0, ops):
-    m = modict(dec_ps(ps0))
     out = []
-    for i, op in enumerate(ops):
-        out += apply_mo(m, op, i, modict, odict)
-        out += obs_mo(m)
+    try:
+        with hang_guard():
+            m = modict(dec_ps(ps0))
+            for i, op in enumerate(ops):
+                r = apply_mo(m, op, i, modict, odict)
+                out += r + obs_mo(m)
+    except Hang:
+        out += HANG
     return out
 
 
@@ -580,7 +626,11 @@ def mo_violation(modict, odict, ps0, ops):
 
     for k, v in ps0:
         add(k, v)
-    m = modict(dec_ps(ps0))
+    try:
+        with hang_guard():
+            m = modict(dec_ps(ps0))
+    except Hang:
+        return {"step": 0, "op": ("modict",) + tuple(ps0), "impl_result": list(HANG), "why": "constructor did not terminate"}
     for i, op in enumerate(ops):
         t = op[0]
         want = "skip"
@@ -626,11 +676,15 @@ def mo_violation(modict, odict, ps0, ops):
             want = [0]
         elif t == "clear": del L[:]; want = [0]
         elif t in ("copy", "pickle"): want = [11] + enc_lps([(p[0], p[1]) for p in L])
-        got = apply_mo(m, op, i, modict, odict)
         try:
-            state = [(code(a), list(l)) for a, l in m.listitems()]
-        except Exception as ex:
-            state = repr(ex)
+            with hang_guard():
+                got = apply_mo(m, op, i, modict, odict)
+                try:
+                    state = [(code(a), list(l)) for a, l in m.listitems()]
+                except Exception as ex:
+                    state = repr(ex)
+        except Hang:
+            got, state = list(HANG), "hang: the implementation did not terminate"
         exp_state = [(p[0], list(p[1])) for p in L]
         if got != want or state != exp_state:
             return {"step": i, "op": op, "impl_result": got, "expected_result": want,
@@ -683,11 +737,15 @@ def obs_os(s):
 
 
 def run_os(oset, l0, ops):
-    s = oset(l0)
     out = []
-    for i, op in enumerate(ops):
-        out += apply_os(s, op, i, oset)
-        out += obs_os(s)
+    try:
+        with hang_guard():
+            s = oset(l0)
+            for i, op in enumerate(ops):
+                r = apply_os(s, op, i, oset)
+                out += r + obs_os(s)
+    except Hang:
+        out += HANG
     return out
 
 
@@ -711,7 +769,11 @@ def os_violation(oset, l0, ops):
             if x not in r: r.append(x)
         return r
     L = of(l0)
-    s = oset(l0)
+    try:
+        with hang_guard():
+            s = oset(l0)
+    except Hang:
+        return {"step": 0, "op": ("oset", list(l0)), "impl_result": list(HANG), "why": "constructor did not terminate"}
     for i, op in enumerate(ops):
         t = op[0]
         b = of(op[1]) if t in ("or", "and", "sub", "xor", "ior", "iand", "isub", "ixor", "eq", "le", "disjoint") else None
@@ -742,9 +804,14 @@ def os_violation(oset, l0, ops):
         elif t == "le": want = [1, int(set(L) <= set(b))]
         elif t == "disjoint": want = [1, int(not (set(L) & set(b)))]
         elif t == "pickle": want = [3] + enc_l(L)
-        got = apply_os(s, op, i, oset)
-        state = list(s)
-        if got != want or state != L or len(s) != len(L):
+        try:
+            with hang_guard():
+                got = apply_os(s, op, i, oset)
+                state = list(s)
+                n = len(s)
+        except Hang:
+            got, state, n = list(HANG), "hang: the implementation did not terminate", -1
+        if got != want or state != L or n != len(L):
             return {"step": i, "op": op, "impl_result": got, "expected_result": want,
                     "impl_elements": state, "expected_elements": list(L)}
     return None
@@ -886,6 +953,7 @@ def sequences(ctx, alphabet, inits, genop, nrand, lmax):
 
 
 STATE = {}
+MAX_HANGS = 3          # per class in the correspondence run, 4x that in the search
 
 
 def run(ctx):
@@ -902,6 +970,8 @@ def run(ctx):
         "CPython's builtin dict / list / pickle / copy semantics are modelled, not verified",
         "the iteration order of the underlying builtin dict is not modelled (no modelled method reads it)",
         "odict methods insert/sift/reorder/create applied to a modict are outside the modelled op set",
+        "every call into the real classes runs under a CPU-time (1 s per history) and wall-clock (30 s) guard; a call "
+        "that does not return is the result class Hang for that step (never produced by the model)",
     ]
     ctx.exhaustive = True
     ctx.coq_build("C39/Props.v")
@@ -909,6 +979,8 @@ def run(ctx):
     rng = ctx.rng
     nr = ctx.n(200, 6000)
     cases, metas = [], []
+    hangs = {}        # class -> histories on which the implementation did not terminate
+    STATE["hangs"] = hangs
 
     def mut(ops, names):
         return sum(1 for o in ops if o[0] in names) >= 2
@@ -920,7 +992,10 @@ def run(ctx):
     for cls, nm, low in ((odict, "odict", None), (lodict, "lodict", "lower2")):
         seqs = sequences(ctx, od_alphabet(3), od_inits, lambda: gen_od_ops(rng, 5, low), nr, 25)
         for ini, ops in seqs:
+            if hangs.get(nm, 0) >= MAX_HANGS:
+                break                      # the tie is already broken; do not burn a CPU second per history
             flat = run_od(cls, odict, ini, ops)
+            hangs[nm] = hangs.get(nm, 0) + (flat[-2:] == HANG)
             if low:
                 expr = "enc_trace (lo_trace lower2 (lo_init lower2 %s) %s)" % (c_ps(ini), c_ops(ops))
             else:
@@ -933,7 +1008,10 @@ def run(ctx):
               "update", "updatem", "clear")
     mo_inits = [[], [(0, 1)], [(0, 1), (0, 2), (2, 3)], [(2, 1), (0, 2), (2, 3), (4, 4)]]
     for ini, ops in sequences(ctx, mo_alphabet(2), mo_inits, lambda: gen_mo_op(rng, 3), nr, 25):
+        if hangs.get("modict", 0) >= MAX_HANGS:
+            break
         flat = run_mo(modict, odict, ini, ops)
+        hangs["modict"] = hangs.get("modict", 0) + (flat[-2:] == HANG)
         cases.append(("enc_mtrace (m_trace (m_adds %s empty) %s)" % (c_ps(ini), c_ops(ops, c_mop, "mop")), c_l(flat)))
         metas.append(("modict", ini, ops, flat))
         ctx.case({"class": "modict", "init": ini, "ops": ops}, nontrivial=mut(ops, MUT_MO), kind="modict")
@@ -941,12 +1019,17 @@ def run(ctx):
     MUT_OS = ("add", "discard", "remove", "pop", "clear", "ior", "iand", "isub", "ixor")
     os_inits = [[], [0], [2, 0, 1], [1, 3, 0, 2]]
     for ini, ops in sequences(ctx, os_alphabet(3), os_inits, lambda: gen_os_op(rng, 5), nr, 25):
+        if hangs.get("oset", 0) >= MAX_HANGS:
+            break
         flat = run_os(oset, ini, ops)
+        hangs["oset"] = hangs.get("oset", 0) + (flat[-2:] == HANG)
         cases.append(("enc_strace (s_trace (s_of %s) %s)" % (c_l(ini), c_ops(ops, c_sop, "sop")), c_l(flat)))
         metas.append(("oset", ini, ops, flat))
         ctx.case({"class": "oset", "init": ini, "ops": ops}, nontrivial=mut(ops, MUT_OS), kind="oset")
 
     STATE["metas"] = metas
+    if any(hangs.values()):
+        ctx.extra["hung_histories"] = dict(hangs)
     bad = ctx.coq_cases(HEADER, "leqb", cases, shard=ctx.n(300, 400))
     ctx.extra["mismatches"] = len(bad)
     seen = set()
@@ -1000,6 +1083,8 @@ def family_key(nm, v):
     op = v.get("op") or ("?",)
     t = op[0]
     got = v.get("impl_result") or []
+    if list(got) == HANG:
+        return "%s-hang" % nm               # a call into the implementation did not terminate
     raised_other = bool(got) and got[0] == 9 and got[1] >= 100      # exception class outside the model
     if nm in ("odict", "lodict"):
         if t == "ior":
@@ -1053,7 +1138,11 @@ def search(ctx):
                         metas.append((nm, ini, [b, a], None))
     order = sorted(metas, key=lambda m: len(m[2]))          # shortest histories first
     found = {}                                               # key -> (nm, ini, ops)
+    nh = {}
     for nm, ini, ops, _ in order:
+        if nh.get(nm, 0) >= 4 * MAX_HANGS:
+            ctx.extra["search_truncated_after_hangs"] = nm   # each hanging history costs a CPU second
+            continue
         try:
             v = viols[nm](ini, ops)
         except Exception as ex:
@@ -1061,6 +1150,7 @@ def search(ctx):
                                                                   "why": "reference/impl crashed: %r" % ex}))
             continue
         if v:
+            nh[nm] = nh.get(nm, 0) + (list(v.get("impl_result") or []) == HANG)
             found.setdefault(family_key(nm, v), (nm, ini, ops, v))
     if not found:
         return None
@@ -1070,7 +1160,8 @@ def search(ctx):
         if k in open_keys:
             ctx.known_finding(k)             # prints the KNOWN-FINDING line (once per key)
     ctx.extra["finding_keys"] = sorted(found)
-    key = min(unknown or list(found), key=lambda k: len(found[k][2]))
+    # a non-terminating call is reported first, then the shortest history
+    key = min(unknown or list(found), key=lambda k: (not k.endswith("-hang"), len(found[k][2])))
     nm, ini, ops, v = found[key]
     if "crash" not in key:
         try:
